@@ -517,7 +517,13 @@ let make_m1 (params : string list) : machine =
   let ldbr : ldb option ref = ref None in
   let tree_at (f : (z * node option) list) (v : int) : node option =
     (match List.find_opt (fun (w, _) -> int_of_z w = v) f with Some (_, t) -> t | None -> None) in
-  let legacy_note (toks : string list) (res : string) (before : mstate) (after : mstate) : unit =
+  let rec legacy_note (toks : string list) (res : string) (before : mstate) (after : mstate) : unit =
+    (* an operation run under the fault / crash explorer is the same operation for the model *)
+    match toks with
+    | ("fault" | "crash") :: "cold" :: rest | ("fault" | "crash") :: rest ->
+        let res' = if String.length res > 3 && (String.sub res 0 3 = "FL;" || String.sub res 0 3 = "CR;") then String.sub res 3 (String.length res - 3) else res in
+        legacy_note rest res' before after
+    | _ ->
     if !in_legacy then
       (match toks with
        | [ "save" ] ->
